@@ -162,6 +162,17 @@ class Folder:
                 return env[node.id]
             if node.id in ('True', 'False', 'None'):
                 return {'True': True, 'False': False, 'None': None}[node.id]
+            if cls is not None and node.id not in ('self', 'cls'):
+                # a class-level statement refers to earlier class-level names directly
+                v, owner = self.repo.lookup_class_attr(cls, node.id)
+                if v is not None and getattr(self, '_cls_depth', 0) < 6:
+                    self._cls_depth = getattr(self, '_cls_depth', 0) + 1
+                    try:
+                        return self.eval(v, owner.mod, None, owner)
+                    except NotConst:
+                        pass
+                    finally:
+                        self._cls_depth -= 1
             return self.module_value(mod, node.id)
         if isinstance(node, ast.Attribute):
             if isinstance(node.value, ast.Name) and node.value.id in ('self', 'cls') and cls is not None \
